@@ -13,7 +13,7 @@ from ..gen import docs as D
 from ..gen import queries as Q
 from ..gen.filters import FilterGen
 from ..gen.render import Renderer
-from ..run import Stats, hyp_run, mix
+from ..run import Stats, hyp_run, mix, rng_for
 from ..strict import canon, jeq, short
 
 import jsonpath
@@ -207,7 +207,7 @@ def t_random(seed, n):
 
     def body(x):
         doc, s = x
-        rng = random.Random(s)
+        rng = rng_for(s)
         stats.case()
         if rng.random() < 0.45:
             text = gen_simple(rng, doc)
